@@ -623,7 +623,7 @@ func ruleDataMatrixEncoder(c *Ctx) {
 					phis = append(phis, p)
 				}
 			}
-			if len(phis) == 3 && hdr == nil {
+			if (len(phis) == 3 || len(phis) == 2) && hdr == nil && len(b.Succs) == 2 {
 				hdr = b
 				for _, p := range phis {
 					for ei, e := range p.Edges {
@@ -641,6 +641,18 @@ func ruleDataMatrixEncoder(c *Ctx) {
 						}
 					}
 				}
+			}
+		}
+		if colP == nil && idxP != nil && hdr != nil {
+			// the cursor is not loop-carried here (kept in a cell): the only zero-initialised phi is col
+			nph := 0
+			for _, ins := range hdr.Instrs {
+				if _, ok := ins.(*ssa.Phi); ok {
+					nph++
+				}
+			}
+			if nph == 2 {
+				colP, idxP = idxP, nil
 			}
 		}
 		if hdr == nil || rowP == nil || colP == nil {
@@ -663,7 +675,7 @@ func ruleDataMatrixEncoder(c *Ctx) {
 				ok, _ := CondEquivalent(got, MustRefCond("row < nrow || col < ncol"))
 				return ok
 			}
-			if !try(colP) && try(idxP) {
+			if idxP != nil && !try(colP) && try(idxP) {
 				colP, idxP = idxP, colP
 			}
 			n.Bind[colP] = "col"
@@ -712,6 +724,14 @@ func ruleDataMatrixEncoder(c *Ctx) {
 			args := call.Common().Args
 			plN[calleeOf(call).Name()]++
 			key := fmt.Sprintf("datamatrix.SetValues/codeword/%s#%d", calleeOf(call).Name(), plN[calleeOf(call).Name()])
+			// a cursor closure: returns data[cursor] and advances the captured cursor by one
+			if cc, isCall := args[len(args)-1].(*ssa.Call); isCall {
+				if mc, isMC := cc.Common().Value.(*ssa.MakeClosure); isMC && isCursorClosure(mc, fn) {
+					pls = append(pls, placement{call, cc}) // every call is its own cursor value
+					c.Check(R3, key, call.Pos(), true, "takes the next codeword from a cursor that advances by one per call", "cursor closure")
+					return
+				}
+			}
 			ld, ok := args[len(args)-1].(*ssa.UnOp)
 			var ia *ssa.IndexAddr
 			if ok {
@@ -771,4 +791,76 @@ func ruleDataMatrixEncoder(c *Ctx) {
 		}
 		c.Check(R3, "datamatrix.SetValues/placements", fn.Pos(), len(pls) >= 6, "four corner placements and the two diagonal sweeps take codewords from the cursor", fmt.Sprint(len(pls)))
 	}
+}
+
+// isCursorClosure: the closure reads the captured int cursor, returns data[cursor] (data: the
+// enclosing function's slice parameter) and stores cursor+1 back - nothing else touches the cursor.
+func isCursorClosure(mc *ssa.MakeClosure, parent *ssa.Function) bool {
+	cl, ok := mc.Fn.(*ssa.Function)
+	if !ok || len(cl.Blocks) != 1 || len(cl.Params) != 0 {
+		return false
+	}
+	var cell ssa.Value // the captured cursor cell (a free variable holding *int)
+	var loadIdx *ssa.UnOp
+	var stores []*ssa.Store
+	var ret *ssa.Return
+	for _, ins := range cl.Blocks[0].Instrs {
+		switch x := ins.(type) {
+		case *ssa.Store:
+			stores = append(stores, x)
+		case *ssa.Return:
+			ret = x
+		}
+	}
+	if len(stores) != 1 || ret == nil || len(ret.Results) != 1 {
+		return false
+	}
+	cell = stores[0].Addr
+	if _, isFV := cell.(*ssa.FreeVar); !isFV {
+		return false
+	}
+	add, ok := stores[0].Val.(*ssa.BinOp)
+	if !ok || add.Op != token.ADD {
+		return false
+	}
+	if k, isK := constInt(add.Y); !isK || k != 1 {
+		return false
+	}
+	loadIdx, ok = add.X.(*ssa.UnOp)
+	if !ok || loadIdx.X != cell {
+		return false
+	}
+	// the returned value: data[loadIdx] with the load before the store
+	rl, ok := ret.Results[0].(*ssa.UnOp)
+	if !ok {
+		return false
+	}
+	ia, ok := rl.X.(*ssa.IndexAddr)
+	if !ok || !dominatesInstr(rl, stores[0]) {
+		return false
+	}
+	if il, isLoad := ia.Index.(*ssa.UnOp); !isLoad || il.X != cell || !dominatesInstr(il, stores[0]) {
+		return false
+	}
+	// data is the parent's slice parameter (captured by value or through its cell)
+	src := ia.X
+	if ld, isLd := src.(*ssa.UnOp); isLd {
+		src = ld.X
+	}
+	fv, isFV := src.(*ssa.FreeVar)
+	if !isFV {
+		return false
+	}
+	b := freeVarBinding(fv)
+	if b == nil {
+		return false
+	}
+	if a, isAlloc := b.(*ssa.Alloc); isAlloc {
+		sts, _, _ := storesTo(a)
+		if len(sts) != 1 || sts[0].Val != ssa.Value(parent.Params[1]) {
+			return false
+		}
+		return true
+	}
+	return b == ssa.Value(parent.Params[1])
 }
